@@ -155,7 +155,12 @@ def run(ctx: core.Ctx) -> core.Outcome:
             e = by_id[tid]["ev"][ln - 1]
             viols.append(core.Violation(key=clause, case=" / ".join(e["lines"]), detail=str({k: v for k, v in e.items() if k != "lines"})[:500],
                                         replay={"event": e}))
-    cov = dict(states=res.distinct, transitions=res.generated, design_spec="Analyzer", lints=sum(1 for e in evs if e["e"] == "lint"),
+    lint_evs = [e for e in evs if e["e"] == "lint"]
+    cov = dict(evaluations=len(evs), distinct_nontrivial=len({tuple(e["lines"]) for e in lint_evs if e["offending"] or e["kinds"].startswith("junk")}),
+               rule="every line of the TLA+ grammar Analyzer.tla (TLC initial states: tag x operator x value x unit, command x argument, "
+                    "junk) alone in a method, plus random pairs; non-trivial = distinct method texts that contain a line the analysis "
+                    "must flag or a junk line; accepted methods are additionally executed on the engine",
+               states=res.distinct, transitions=res.generated, design_spec="Analyzer", lints=sum(1 for e in evs if e["e"] == "lint"),
                accepted_methods_run=runs, must_flag=sum(1 for c in cases if c[2]), published_tags=len(pub_tags),
                published_commands=len(pub_cmds), **tstats, samples=[cases[0][1], cases[len(cases) // 2][1], cases[-1][1]])
     return core.Outcome(level="exploration", coverage=cov, violations=viols, assumptions=[
